@@ -419,7 +419,7 @@ def run(ctx, col: Collector):
         W = r'(?<![a-z"◦])'
         ITEMC = r'(◦\*?|pk|increment|unique|not null|default: ◦|◦: ◦)'
         ITEMI = r'(name: ◦|pk|unique|type: ◦|◦)'
-        ITEMR = r'(update: ◦|delete: ◦)'
+        ITEMR = r'(update: ◦|delete: ◦|◦\*?)'
         specs = [
             (D + 'column', 'render_column', rf'(◦ ?)?"◦" ◦( ?\[({ITEMC}(, ?{ITEMC})*)?\])?', '"name" type [settings]', None,
              [flag('pk', W + r'pk(?![a-z])', 'pk', 'pk'), flag('increment', W + 'increment', 'autoinc', 'increment'), flag('unique', W + 'unique', 'unique', 'unique'),
@@ -449,7 +449,7 @@ def run(ctx, col: Collector):
                                   order=[('name, type', [r'model\.name\b|\w+\.name\b', r'\.type\b'])]),
             'render_enum': dict(some=[('the enum items', r'\.items\b')]),
             'render_enum_item': dict(always=[('the item name', r'\.name\b')], labels=[data('note', r'\.note\b', 'note')]),
-            'render_index': dict(labels=[data('note', r'\.note\b', 'note')], always=[('the index subjects', r'subject')]),
+            'render_index': dict(labels=[data('note', r'\.note\b', 'note')]),
             'render_not_inline_reference': dict(order=[('table1.col1 <kind> table2.col2', [r'\.table1\b', r'\.col1\b', r'\.type\b', r'\.table2\b', r'\.col2\b'])],
                                                 always=[('the relation kind', r'\.type\b')]),
             'render_inline_reference': dict(order=[('<kind> table.column of side 2', [r'\.type\b', r'\.col2\[0\]\.table\b', r'\.col2\[0\]\.name\b'])]),
